@@ -99,7 +99,11 @@ class Reporter:
         lines = []
         replay_dir = os.path.join(EVIDENCE_DIR, "replay")
         os.makedirs(replay_dir, exist_ok=True)
+        printed = set()
         for o in known_hits:
+            if o.key in printed:
+                continue
+            printed.add(o.key)
             lines.append(f"KNOWN-FINDING: property={self.prop} {o.rule} {o.file}::{o.qualname} `{o.text}` "
                          f"- {known_keys[o.key].get('fails', '')}")
         n = 0
